@@ -13,19 +13,9 @@ ENTRY = 'asefile::palette::ColorPaletteEntry'
 
 
 def root_local(body, op):
-    """follow plain copies back to the user local an operand denotes"""
-    r = res(body)
-    l = op['p']['l'] if op['k'] in ('copy', 'move') and not op['p']['p'] else None
-    seen = set()
-    while l is not None and l not in seen:
-        seen.add(l)
-        ds = r.defs.get(l, [])
-        if len(ds) == 1 and ds[0][1] == 'rv' and ds[0][2]['k'] == 'use' and ds[0][2]['op']['k'] in ('copy', 'move') \
-                and not ds[0][2]['op']['p']['p'] and not ds[0][0]:
-            l = ds[0][2]['op']['p']['l']
-        else:
-            break
-    return l
+    """the user local an operand denotes (through copies, and through a struct / Ok / `?` an inlined helper packed it into)"""
+    l = q.origin_local(body, op)
+    return l if l is not None else q.root_local(body, op)
 
 
 def local_defs(body, l):
